@@ -17,8 +17,11 @@ let opt_dump = function Some g -> zdump g | None -> "PANIC"
 let rec dedup = function
   | a :: (b :: _ as t) -> if pt_eqb a b then dedup t else a :: dedup t
   | l -> l
-let point_key (g : z geomT) : string =
-  String.concat ";" (List.map (fun (x, y) -> Printf.sprintf "%d,%d" (int_of_z x) (int_of_z y)) (dedup (sort (point_set g))))
+let key_of (pts : pt list) : string =
+  String.concat ";" (List.map (fun (x, y) -> Printf.sprintf "%d,%d" (int_of_z x) (int_of_z y)) (dedup (sort pts)))
+let point_key (g : z geomT) : string = key_of (point_set g)
+(* all control points (holes included) *)
+let control_key (g : z geomT) : string = key_of (List.map xy_of (geom_vs g))
 
 let parse_rect (s : string) : float list =
   match String.split_on_char ' ' s with
@@ -27,9 +30,12 @@ let parse_rect (s : string) : float list =
 
 let rec pairs = function a :: b :: r -> (a, b) :: pairs r | _ -> []
 
+let no_result (s : string) = s = "PANIC" || (String.length s >= 4 && String.sub s 0 4 = "HANG")
+
 let check_rect id kind kname (g : z geomT) (obs : string) =
   let pts = point_set g in
-  if is_empty g then begin
+  if no_result obs then fail id "SPEC" ("mbr_" ^ kname ^ "_total") ("RotatedMinimum...BoundingRectangle: " ^ obs)
+  else if is_empty g then begin
     (* the hull (the input forced to 2D) is returned *)
     let want = "G " ^ opt_dump (convex_hull g) in
     if obs <> want then fail id "CORR" ("mbr_" ^ kname ^ "_empty") (trunc ("model=" ^ want ^ " impl=" ^ obs))
@@ -43,6 +49,16 @@ let check_rect id kind kname (g : z geomT) (obs : string) =
     | MRect best ->
       count ("mbr_" ^ kname ^ "_rect");
       let ring = match hull_pts pts with HPoly r -> r | _ -> [] in
+      (* the transcribed caliper walk must reach the extremes of the reference candidates *)
+      (if kind = MArea then
+         let key c = (int_of_z (fst c.c_a), int_of_z (snd c.c_a), int_of_z (fst c.c_d), int_of_z (snd c.c_d),
+                      int_of_z c.c_tmin, int_of_z c.c_tmax, int_of_z c.c_hmax) in
+         match walk_candidates ring with
+         | None -> fail id "CORR" "caliper_walk" "the transcribed walk does not terminate / indexes out of range"
+         | Some cs ->
+           if List.map key cs <> List.map key (candidates ring) then
+             fail id "CORR" "caliper_walk" "the transcribed caliper walk and the reference extremes differ"
+           else count "caliper_walk_agrees");
       (match (try Some (parse_rect obs) with _ -> None) with
        | None ->
          fail id "CORR" ("mbr_" ^ kname) (trunc ("model has a rectangle, impl=" ^ obs));
@@ -73,6 +89,38 @@ let check_rect id kind kname (g : z geomT) (obs : string) =
              (trunc (Printf.sprintf "min=%.17g corners %s" bestf
                        (String.concat " " (List.map (Printf.sprintf "%.17g") fl)))))
 
+(* ---- class "float": general-position doubles, covering claims within tolerance ---- *)
+let floats_of_dump (s : string) : float list =
+  List.filter_map (fun t -> if String.length t = 16 then Some (float_of_bits_hex t) else None) (tokens s)
+let qpts_of_floats fl = List.map (fun (x, y) -> (q_of_float x, q_of_float y)) (pairs fl)
+let has_prefix p s = String.length s >= String.length p && String.sub s 0 (String.length p) = p
+
+let check_float id (f : string array) =
+  let infl = floats_of_dump f.(2) in
+  note_case f.(2) true;
+  let mag = List.fold_left (fun m x -> Float.max m (Float.abs x)) 1e-300 infl in
+  (* eps = 1e-9 * magnitude, as an exact rational *)
+  let eps = qred (qmult (q_of_float mag) { qnum = z_of_int 1; qden = pos_of_int 1_000_000_000 }) in
+  if no_result f.(3) then fail id "SPEC" "hull_total" ("ConvexHull: " ^ f.(3))
+  else if not (has_prefix "Y 0 1 L 0 " f.(3)) then count "float_degenerate"
+  else begin
+    count "float_polygon";
+    let pts = qpts_of_floats infl in
+    let ring = qpts_of_floats (floats_of_dump f.(3)) in
+    if not (float_hull_ok eps pts ring) then fail id "SPEC" "float_hull_covers" (trunc ("hull=" ^ f.(3)));
+    if f.(5) <> f.(3) then fail id "SPEC" "hull_perm_invariant" (trunc ("hull=" ^ f.(3) ^ " hull(variant)=" ^ f.(5)));
+    if f.(6) <> f.(3) then fail id "SPEC" "hull_idempotent" (trunc ("hull=" ^ f.(3) ^ " hull(hull)=" ^ f.(6)));
+    if f.(9) <> "1" then fail id "SPEC" "hull_valid" (trunc ("Validate() rejects " ^ f.(3)));
+    List.iter (fun (kname, obs) ->
+        if no_result obs then fail id "SPEC" ("mbr_" ^ kname ^ "_total") obs
+        else match (try Some (parse_rect obs) with _ -> None) with
+          | None -> fail id "SPEC" ("mbr_" ^ kname ^ "_is_rectangle") (trunc obs)
+          | Some fl ->
+            if not (float_rect_ok eps rel_tol (qpts_of_floats fl) ring) then
+              fail id "SPEC" ("float_mbr_" ^ kname) (trunc obs))
+      [("area", f.(7)); ("width", f.(8))]
+  end
+
 let () =
   let path = Sys.argv.(1) in
   let samples = ref 0 in
@@ -82,10 +130,24 @@ let () =
       incr cases;
       count ("class_" ^ cls);
       try
-        let g = parse_zdump f.(2) in
-        let empty = is_empty g in
+        if cls = "float" then check_float id f else
+        let g0 = parse_zdump f.(2) in
+        let empty = is_empty g0 in
+        (* A polygon whose holes have points outside its shell is ill-formed; the implementation
+           reads exterior rings only (so does the model), the property text says "control points".
+           For such inputs both readings are accepted, consistently for the whole case. *)
+        let as_multipoint (g : z geomT) : z geomT =
+          GMPoint (XY, List.map (fun v -> let (x, y) = xy_of v in MkPoint (XY, Some { vx = x; vy = y; vz = Z0; vm = Z0 })) (geom_vs g)) in
+        let ambiguous = (not empty) && control_key g0 <> point_key g0 in
+        let all_reading = ambiguous && opt_dump (convex_hull g0) <> f.(3)
+                          && opt_dump (convex_hull (as_multipoint g0)) = f.(3) in
+        if all_reading then count "holes_outside_shell_included";
+        let g = if all_reading then as_multipoint g0 else g0 in
         note_case f.(2) (not empty);
         let pts = point_set g in
+        (* the hull reads exterior rings only: say how often that differs from "all control points" *)
+        if not empty then
+          count (if not ambiguous then "hull_pts_are_all_control_pts" else "holes_outside_shell");
         (* which branch of the model *)
         (if empty then count "res_empty_input" else
            match hull_pts pts with
@@ -96,7 +158,7 @@ let () =
         (* CORR: hull, exactly *)
         if mhd <> f.(3) then fail id "CORR" "hull" (trunc ("model=" ^ mhd ^ " impl=" ^ f.(3)));
         (* SPEC: the property's statement on the implementation's hull *)
-        if f.(3) = "PANIC" then fail id "SPEC" "hull_total" "ConvexHull panicked"
+        if no_result f.(3) then fail id "SPEC" "hull_total" ("ConvexHull: " ^ f.(3))
         else begin
           (match (try Some (parse_zdump f.(3)) with _ -> None) with
            | None -> fail id "SPEC" "hull_on_lattice" (trunc ("not a lattice geometry: " ^ f.(3)))
@@ -106,6 +168,7 @@ let () =
         end;
         (* variant: same point set, other order / multiplicity *)
         let v = parse_zdump f.(4) in
+        let v = if all_reading then as_multipoint v else v in
         if point_key v <> point_key g || is_empty v <> empty then
           fail id "CORR" "variant_same_set" (trunc ("in=" ^ f.(2) ^ " variant=" ^ f.(4)));
         let mvd = opt_dump (convex_hull v) in
